@@ -210,7 +210,7 @@ func init() {
 		Batches: []Batch{
 			{World: "ilv", Profile: "c08-noresize", Quick: 3000, Thor: 120000, PerProc: 250, FaultFree: true},
 			{World: "ilv", Profile: "c08-resize", Quick: 1500, Thor: 60000, PerProc: 250},
-			{World: "rl", Profile: "c08tb-acquire", Quick: 200, Thor: 10000, PerProc: 1, FaultFree: true},
+			{World: "rl", Profile: "c08tb-acquire", Quick: 600, Thor: 12000, PerProc: 1, FaultFree: true},
 		},
 		Rule: "each run = one drawn workload (2-4 instance threads issuing SetState with drawn counts/request ids, removal threads, optional Resize thread) under one drawn statement-level schedule (uniform or PCT); distinct = distinct trace hash; non-trivial = at least two operations overlapped in time AND (a rollback, a removal or a stale id occurred). Profile c08tb-acquire (rl world): one real leading replica, a count-strategy token-bucket schema (qps 1..1000, burst 1-3x qps), 1-4 instances sending 20-120 Acquire RPCs with drawn asks (0, 1, around qps and burst, 8*burst+3, negative, int32 extremes; 1-3 requests per RPC) at drawn fake times (same instant, 1 ms, exactly 1/qps, ... 1 minute), limit changes through the real upstream controller; every answer is checked (0 <= grant <= ask, negative refused) and every window of grants within an epoch of unchanged limits against burst + qps*T; non-trivial = at least 5 grants and one served by a halved retry In c08tb-acquire the schema named tb starts as (one run in three), or becomes for a while, a max-in-flight schema and then a token bucket again under the same name; grants are bounded per epoch by the bucket declared last",
 		Real: []string{"pkg/ratelimiter/store/flowcontrol (globalMaxInflight: SetState/add/Resize/DebugInfo, yield-instrumented copy of the current tree)", "c08tb-acquire: pkg/ratelimiter/limiter (DoAcquire, leader election, upstream controller), the server's handler chain, store/flowcontrol token bucket (x/time/rate on the fake clock)"},
